@@ -274,6 +274,13 @@ class SymNum(Sym):
 
     # -- helpers
     def _bin(self, o, f, rev=False):
+        if type(o).__name__ == "ndarray":
+            import numpy as np
+
+            out = np.empty(o.shape, dtype=object)
+            for idx in np.ndindex(o.shape):
+                out[idx] = self._bin(o[idx], f, rev)
+            return out
         ot = lift(o, self.t)
         if ot is None or z3.is_bool(ot):
             return NotImplemented
